@@ -162,8 +162,22 @@ func (m *mon) violate(sig, msg, id string, f *tfile) {
 		return
 	}
 	m.viol[key] = true
+	// keep the witness slots (50 per run) for distinct signatures: at most 2 witnesses per signature per process
+	sigMu.Lock()
+	sigSeen[sig]++
+	n := sigSeen[sig]
+	sigMu.Unlock()
+	if n > 2 {
+		m.run.Count("violations_not_recorded_same_signature", 1)
+		return
+	}
 	m.run.Violate(evid.Violation{Sig: sig, Msg: msg, Witness: m.witness(id, f), Case: m.caseID()})
 }
+
+var (
+	sigMu   sync.Mutex
+	sigSeen = map[string]int{}
+)
 
 func loopOfSentinel(id string) string {
 	switch id {
